@@ -21,10 +21,12 @@ func init() {
 			"R2 in every WriteWire implementation a literal `return ErrWireFallback` is unreachable after the downstream write, and response observers (reflex sizes, dnstap frames) record only when the chain did not fall back; " +
 			"R3 CommitWire of an entry serve is behind a successful chargeEntryLimiter, after a charge 'not served' is returned only through the listed commit-time backstops, the memo *spent is stored on success and compared in handleCacheHit, RateLimit reaches its limiter and Cache.ServeDNS its wire ladder only across Replay()=false; " +
 			"R4 (order only) the lookups appear exact → cut → denial → failure in ServeDNS, exact → cut → failure in the wire ladder, and the wire failure rung is reached only across cd ∨ DenialMissHoldsWire; " +
-			"R5 every case clause mentioning two of {RRSIG,NSEC,NSEC3} mentions all three and dnsutil.isDNSSEC names the same three; appendRecomposedRR never copies verbatim a type whose library pack compresses rdata names, and refuses what wireRecomposable refuses; the option codes ParseWire admits are exactly the option types the decoded path reads (+PADDING); the transports forced to MaxMsgSize are the same set in edns.ServeDNS and edns.serveWire; the three engine entry points compare the accept verdict with the same constants; " +
+			"R5 every case clause mentioning two of {RRSIG,NSEC,NSEC3} mentions all three and dnsutil.isDNSSEC names the same three; appendRecomposedRR never copies verbatim a type whose library pack compresses rdata names, and refuses what wireRecomposable refuses; the option codes ParseWire admits are exactly the option types the decoded path reads (+PADDING); the transports forced to MaxMsgSize are the same set in edns.ServeDNS and edns.serveWire; the three engine entry points handle every non-OK accept verdict alike (each interpreted with the verdict fixed); " +
 			"R6 Request.msg is written only by SetMsg/materialize/release, parsed facts only by ParseWire/parseWireOPT, normalisation fields only by RecordEDNSNormalization, whole-Request stores only in SetMsg/ParseWire, and materialize applies SetEdns0(m, r.ecsPolicy, r.clientAddr) iff ednsRan before publishing msg; " +
 			"R7 reflex scoring and the dnstap query frame are reached only across Replay()=false; " +
-			"R8 edns.ServeDNS and edns.serveWire assign the same ResponseWriter client facts (opt+cookie ↔ cookieRaw+hasCookieRaw), and wireOPTLen reserves under the same guards under which appendWireOPT emits (EDE reserved by the producer).",
+			"R8 edns.ServeDNS and edns.serveWire assign the same ResponseWriter client facts (opt+cookie ↔ cookieRaw+hasCookieRaw), and for every assignment of the guard atoms wireOPTLen reserves as many options as appendWireOPT appends (decided by interpreting both CFGs; EDE reserved by the producer); " +
+			"R10 the UDP ceiling stored by edns.ServeDNS (through SetEdns0) and by edns.serveWire is the same value for every boundary advertised size, with and without OPT, over udp and tcp (both stores interpreted on concrete sizes); " +
+			"R11 every client-subnet payload parseWireOPT admits is accepted by the library's EDNS0_SUBNET.unpack (both validators interpreted on boundary payloads).",
 		NotDecided: []string{
 			"the equivalence itself: header bits, TTLs, record content and OPT bytes of the two paths' replies for every (state, packet)",
 			"the set of packets admitted by ParseWire versus the library's Unpack (value-level validation of names and option payloads)",
@@ -44,6 +46,8 @@ func runC05(c *Ctx) {
 	c05R6(c)
 	c05R7(c)
 	c05R8(c)
+	c05R10static(c)
+	c05R11static(c)
 }
 
 func x5IsInvokeNamed(names ...string) func(ssa.Instruction) bool {
@@ -430,32 +434,55 @@ func c05R5(c *Ctx) {
 		a, b := sets["middleware/edns.(*EDNS).ServeDNS"], sets["middleware/edns.(*EDNS).serveWire"]
 		c.x5Decide(R, "C05-R5|stream transports|edns.ServeDNS vs edns.serveWire", token.NoPos, sameSet(a, b) && len(a) > 0, "both branches lift the size ceiling for "+setString(a), "transports forced to MaxMsgSize differ: decoded "+setString(a)+" wire "+setString(b))
 	}
-	// (e)
+	// (e) the three entry points treat every verdict alike: decided by interpreting
+	// each entry point with the verdict fixed (independent of switch / if-chain shape)
 	if aho := c.fobj(R, "server.acceptHeader"); aho != nil {
-		per := map[string]map[string]bool{}
+		vt := c.P.TypeName("server.acceptVerdict")
+		okv, _ := x5ConstInt64(c, R, "server.acceptOK")
+		type sigT struct{ serve, reject, write bool }
+		per := map[string]map[string]sigT{}
 		var names []string
-		for _, s := range c.CallSites(aho) {
-			if s.Kind != "call" {
-				continue
-			}
-			fn := TopLevel(s.Fn)
-			set := map[string]bool{}
-			for _, b := range fn.Blocks {
-				if iff, ok := b.Instrs[len(b.Instrs)-1].(*ssa.If); ok {
-					a, _ := Truthy(Desc(iff.Cond))
-					if a != nil && a.K == EBin && a.Op == token.EQL && CallTo(aho)(a.X) {
-						if k := strip(a.Y); k != nil && k.K == EConst && k.Val != nil {
-							set[k.Val.ExactString()] = true
-						}
-					}
+		if vt != nil {
+			sc := vt.Pkg().Scope()
+			for _, s := range c.CallSites(aho) {
+				if s.Kind != "call" {
+					continue
 				}
+				fn := TopLevel(s.Fn)
+				m := map[string]sigT{}
+				for _, n := range sc.Names() {
+					k, ok := sc.Lookup(n).(*types.Const)
+					if !ok || !types.Identical(k.Type(), vt.Type()) {
+						continue
+					}
+					kv, _ := constant.Int64Val(constant.ToInt(k.Val()))
+					if kv == okv {
+						continue // what follows acceptance differs by design (inline handoff vs FORMERR on undecodable bodies)
+					}
+					sig := x5VerdictBehaviour(fn, isPlainCallTo(aho), CallTo(aho), kv)
+					if sig.bad != "" || !sig.reached {
+						c.undecided(R, "C05-R5|accept verdicts|"+fnKey(fn)+"|"+n, instrPos(s.Instr), "cannot interpret the entry point: "+sig.bad)
+						continue
+					}
+					m[n] = sigT{sig.serve, sig.reject, sig.write}
+				}
+				per[fnKey(fn)] = m
+				names = append(names, fnKey(fn))
 			}
-			per[fnKey(fn)] = set
-			names = append(names, fnKey(fn))
 		}
 		sort.Strings(names)
 		for i := 1; i < len(names); i++ {
-			c.x5Decide(R, "C05-R5|accept verdicts|"+names[0]+" vs "+names[i], token.NoPos, sameSet(per[names[0]], per[names[i]]), "same verdict comparisons "+setString(per[names[0]]), "verdict comparisons differ: "+setString(per[names[0]])+" vs "+setString(per[names[i]]))
+			a, b := per[names[0]], per[names[i]]
+			same := len(a) == len(b) && len(a) > 0
+			var diff []string
+			for n, sa := range a {
+				if sb, ok := b[n]; !ok || sa != sb {
+					same = false
+					diff = append(diff, fmt.Sprintf("%s: %+v vs %+v", n, sa, b[n]))
+				}
+			}
+			sort.Strings(diff)
+			c.x5Decide(R, "C05-R5|accept verdicts|"+names[0]+" vs "+names[i], token.NoPos, same, "every non-OK verdict is handled alike (served / rejected / answered)", "the entry points handle a verdict differently: "+strings.Join(diff, "; "))
 		}
 		if len(names) < 3 {
 			c.unresolved(R, "acceptHeader callers", fmt.Sprintf("expected 3, found %d", len(names)))
@@ -815,64 +842,97 @@ func c05R8(c *Ctx) {
 	c.x5Decide(R, "C05-R8|decoded cookie representation", f1.Pos(), w1["opt"] && w1["cookie"], "ServeDNS assigns opt and cookie", "ServeDNS does not assign both opt and cookie")
 	c.x5Decide(R, "C05-R8|wire cookie representation", f2.Pos(), w2["cookieRaw"] && w2["hasCookieRaw"], "serveWire assigns cookieRaw and hasCookieRaw", "serveWire does not assign both cookieRaw and hasCookieRaw")
 
-	// guards of wireOPTLen vs appendWireOPT
-	guardSets := func(path string, contributes func(ast.Node, *types.Info) bool) (map[string]bool, *ast.FuncDecl) {
-		fd, pk := c.P.FuncDecl(path)
-		if fd == nil {
-			c.unresolved(R, path, "declaration not found")
-			return nil, nil
+	// reserve vs append, decided on the CFG: for every assignment of the guard
+	// atoms under which both functions succeed, the number of length
+	// contributions wireOPTLen adds equals the number of options appendWireOPT
+	// appends (the EDE append excepted: its length is reserved by the producer)
+	fl, fa := c.fn(R, "middleware/edns.(*ResponseWriter).wireOPTLen"), c.fn(R, "middleware/edns.(*ResponseWriter).appendWireOPT")
+	if fl != nil && fa != nil {
+		// the additions that feed the returned length
+		chain := map[ssa.Value]bool{}
+		var grow func(v ssa.Value)
+		grow = func(v ssa.Value) {
+			if v == nil || chain[v] {
+				return
+			}
+			chain[v] = true
+			switch x := v.(type) {
+			case *ssa.Phi:
+				for _, e := range x.Edges {
+					grow(e)
+				}
+			case *ssa.BinOp:
+				if x.Op == token.ADD {
+					grow(x.X)
+				}
+			}
 		}
-		out := map[string]bool{}
-		for _, st := range fd.Body.List {
-			ifs, ok := st.(*ast.IfStmt)
+		for _, in := range returnsWhere(fl, 0, nil) {
+			grow(in.(*ssa.Return).Results[0])
+		}
+		isContribution := func(in ssa.Instruction) bool {
+			bo, ok := in.(*ssa.BinOp)
+			return ok && bo.Op == token.ADD && chain[bo]
+		}
+		isAppend := func(in ssa.Instruction) bool {
+			cl, ok := in.(*ssa.Call)
 			if !ok {
-				continue
+				return false
 			}
-			contrib := false
-			ast.Inspect(ifs.Body, func(n ast.Node) bool {
-				if contributes(n, pk.TypesInfo) {
-					contrib = true
+			fo, _, name := calleeObj(&cl.Call)
+			return fo != nil && fo.Pkg() != nil && fo.Pkg().Path() == modPath+"/internal/wire" && strings.HasPrefix(name, "AppendOption") && name != "AppendOptionEDE"
+		}
+		atoms := x5Union((&x5Interp{fn: fl}).atoms(), (&x5Interp{fn: fa}).atoms())
+		key := "C05-R8|wireOPTLen vs appendWireOPT guards"
+		diff, compared := "", 0
+		maxN := 0
+		okRows := x5Rows(atoms, func(as map[string]bool) bool {
+			count := func(fn *ssa.Function, pred func(ssa.Instruction) bool) (int, bool) {
+				it := &x5Interp{fn: fn, assign: as}
+				n := 0
+				end := it.walk(Point{fn.Blocks[0], 0}, func(in ssa.Instruction) bool {
+					if pred(in) {
+						n++
+					}
+					return false
+				})
+				ret, isRet := end.(*ssa.Return)
+				if !isRet || it.bad != "" {
+					return 0, false
 				}
-				return true
-			})
-			if !contrib {
-				continue
+				if r, ok := it.resultOf(ret, 1); !ok || r != "true" {
+					return 0, false // declined: nothing is reserved / appended
+				}
+				if r, ok := it.resultOf(ret, 0); ok && r == "0" {
+					return 0, false // no OPT at all (client without EDNS): appendWireOPT is not called (C06-R1)
+				}
+				return n, true
 			}
-			fs := map[string]bool{}
-			ast.Inspect(ifs.Cond, func(n ast.Node) bool {
-				sel, ok := n.(*ast.SelectorExpr)
-				if !ok {
-					return true
-				}
-				if s := pk.TypesInfo.Selections[sel]; s != nil && s.Kind() == types.FieldVal {
-					fs[s.Obj().Name()] = true
-				}
+			n1, ok1 := count(fl, isContribution)
+			n2, ok2 := count(fa, isAppend)
+			if !ok1 || !ok2 {
 				return true
-			})
-			out[setString(fs)] = true
+			}
+			compared++
+			if n2 > maxN {
+				maxN = n2
+			}
+			if n1 != n2 {
+				diff = fmt.Sprintf("under %s wireOPTLen reserves %d option(s) but appendWireOPT appends %d", x5FmtAssign(as), n1, n2)
+				return false
+			}
+			return true
+		})
+		switch {
+		case !okRows:
+			c.undecided(R, key, fl.Pos(), fmt.Sprintf("too many guard atoms (%d)", len(atoms)))
+		case diff != "":
+			c.violation(R, key, fl.Pos(), diff+": the reply outgrows its lease or the reserve is wasted")
+		case compared == 0 || maxN < 3:
+			c.unresolved(R, "wireOPTLen vs appendWireOPT", fmt.Sprintf("compared %d assignments, at most %d options appended (expected cookie, NSID, keepalive)", compared, maxN))
+		default:
+			c.ok(R, key, fl.Pos(), fmt.Sprintf("reserve and append agree on the option count under all %d succeeding assignments of %d guard atoms", compared, len(atoms)))
 		}
-		return out, fd
-	}
-	lenGuards, fdL := guardSets("middleware/edns.(*ResponseWriter).wireOPTLen", func(n ast.Node, info *types.Info) bool {
-		as, ok := n.(*ast.AssignStmt)
-		return ok && as.Tok == token.ADD_ASSIGN
-	})
-	appGuards, _ := guardSets("middleware/edns.(*ResponseWriter).appendWireOPT", func(n ast.Node, info *types.Info) bool {
-		call, ok := n.(*ast.CallExpr)
-		if !ok {
-			return false
-		}
-		sel, ok := call.Fun.(*ast.SelectorExpr)
-		if !ok {
-			return false
-		}
-		fo, _ := info.Uses[sel.Sel].(*types.Func)
-		return fo != nil && fo.Pkg() != nil && fo.Pkg().Path() == modPath+"/internal/wire" && strings.HasPrefix(fo.Name(), "AppendOption")
-	})
-	if lenGuards != nil && appGuards != nil {
-		delete(appGuards, "{HasEDE}")
-		c.x5Decide(R, "C05-R8|wireOPTLen vs appendWireOPT guards", fdL.Pos(), sameSet(lenGuards, appGuards) && len(lenGuards) >= 3,
-			"reserve and append agree on "+setString(lenGuards), "wireOPTLen reserves under "+setString(lenGuards)+" but appendWireOPT emits under "+setString(appGuards)+": the reply outgrows its lease or the reserve is wasted")
 	}
 	c.Floor(R, 13)
 }
